@@ -11,11 +11,10 @@ import (
 )
 
 type (
-	Once      = sync.Once
-	WaitGroup = sync.WaitGroup
-	Map       = sync.Map
-	Locker    = sync.Locker
-	Cond      = sync.Cond
+	Once   = sync.Once
+	Map    = sync.Map
+	Locker = sync.Locker
+	Cond   = sync.Cond
 )
 
 func NewCond(l Locker) *Cond                                   { return sync.NewCond(l) }
@@ -214,3 +213,60 @@ func (r *rlocker) Unlock() { (*RWMutex)(r).RUnlock() }
 
 // dataPtr is the data word of an interface value (the pooled object's address for pointer-shaped values).
 func dataPtr(x any) unsafe.Pointer { return (*[2]unsafe.Pointer)(unsafe.Pointer(&x))[1] }
+
+// Spawn is installed by the simulator: it starts fn as a task of the running world and returns true, or returns false when
+// the caller is not a simulated task.
+var Spawn func(fn func()) bool
+
+// Spawned counts goroutines of the code under test that became simulated tasks (a reach probe).
+var Spawned int
+
+// Go is what the build overlay turns a go statement of the package under test into (see rewrite_go_statements in
+// /verif/vsim): goroutine creation is a seam. Inside a simulated world the new goroutine is a task like any other - the
+// seeded schedule decides when it runs, its seam calls are logged and judged, it counts for quiescence; elsewhere it is
+// the plain go statement.
+func Go(fn func()) {
+	if s := Spawn; s != nil && s(fn) {
+		Spawned++
+		return
+	}
+	go fn()
+}
+
+// WaitGroup: waiting for goroutines that are simulated tasks must park in the simulator too.
+type WaitGroup struct {
+	real sync.WaitGroup
+	n    int
+}
+
+func (wg *WaitGroup) Add(delta int) {
+	if b := Block; b != nil && b("", nil) {
+		wg.n += delta
+		if delta < 0 {
+			raceReleaseMerge(unsafe.Pointer(wg))
+		}
+		if wg.n < 0 {
+			panic("sync: negative WaitGroup counter")
+		}
+		return
+	}
+	wg.real.Add(delta)
+}
+
+func (wg *WaitGroup) Done() { wg.Add(-1) }
+
+func (wg *WaitGroup) Go(f func()) {
+	wg.Add(1)
+	Go(func() {
+		defer wg.Done()
+		f()
+	})
+}
+
+func (wg *WaitGroup) Wait() {
+	if b := Block; b != nil && b("waitgroup.wait", func() bool { return wg.n == 0 }) {
+		raceAcquire(unsafe.Pointer(wg))
+		return
+	}
+	wg.real.Wait()
+}
